@@ -6,7 +6,9 @@ import random
 from harness import common as C
 
 PROP = "C15"
-ACTIONS = ["Heartbeat", "BootNotification", "Reset", "Authorize"]
+# actions of both versions, of one version only (StartTransaction: 1.6, NotifyReport: 2.0.1 -- an endpoint of the other version may
+# still route them), and an application action of its own
+ACTIONS = ["Heartbeat", "BootNotification", "Reset", "Authorize", "StartTransaction", "NotifyReport", "VendorDiagnostics"]
 NAMES = ["on_a", "on_b", "handle", "after_a", "hook", "foo", "bar"]
 
 
